@@ -1,0 +1,108 @@
+//! Verification hooks (cargo feature `verif`, off by default)
+//!
+//! Nothing in this module changes behaviour unless a [`Controller`] has been
+//! installed on the thread that calls [`crate::Txtpp::run`]. Without one, every
+//! hook is a no-op. The controller logic itself lives outside this crate.
+
+use std::cell::RefCell;
+use std::sync::Arc;
+
+/// Callbacks a verification harness implements to decide when tasks run
+pub trait Controller: Send + Sync {
+    /// A task is about to be submitted to the thread pool (coordinator thread). Returns a task id
+    fn task_spawned(&self, kind: &'static str, file: &str, pass: u8) -> u64;
+    /// First statement of a worker task. May block until the task is allowed to run
+    fn task_begin(&self, id: u64);
+    /// The worker task has sent its result (or is unwinding from a panic)
+    fn task_end(&self, id: u64, panicked: bool);
+    /// The coordinator is about to poll the result channel
+    fn coordinator_poll(&self);
+    /// The coordinator found the channel empty and is not done. May block.
+    /// Return true to poll again immediately instead of sleeping
+    fn coordinator_idle(&self) -> bool;
+    /// The coordinator is being dropped and is about to join the thread pool
+    fn drain_begin(&self);
+    /// The dropping coordinator found the channel empty and is not done.
+    /// Return true to stop draining
+    fn drain_idle(&self) -> bool;
+}
+
+thread_local! {
+    static CONTROLLER: RefCell<Option<Arc<dyn Controller>>> = const { RefCell::new(None) };
+}
+
+/// Install (or remove) the controller for runs started from the current thread
+pub fn install(controller: Option<Arc<dyn Controller>>) -> Option<Arc<dyn Controller>> {
+    CONTROLLER.with(|c| c.replace(controller))
+}
+
+fn current() -> Option<Arc<dyn Controller>> {
+    CONTROLLER.with(|c| c.borrow().clone())
+}
+
+/// Handle moved into a worker closure
+pub struct Ticket {
+    controller: Option<Arc<dyn Controller>>,
+    id: u64,
+}
+
+/// Reports the end of the task when dropped
+pub struct Guard {
+    controller: Option<Arc<dyn Controller>>,
+    id: u64,
+}
+
+pub(crate) fn task_spawned(kind: &'static str, file: &str, pass: u8) -> Ticket {
+    let controller = current();
+    let id = match &controller {
+        Some(c) => c.task_spawned(kind, file, pass),
+        None => 0,
+    };
+    Ticket { controller, id }
+}
+
+impl Ticket {
+    pub(crate) fn begin(self) -> Guard {
+        if let Some(c) = &self.controller {
+            c.task_begin(self.id);
+        }
+        Guard {
+            controller: self.controller,
+            id: self.id,
+        }
+    }
+}
+
+impl Drop for Guard {
+    fn drop(&mut self) {
+        if let Some(c) = &self.controller {
+            c.task_end(self.id, std::thread::panicking());
+        }
+    }
+}
+
+pub(crate) fn coordinator_poll() {
+    if let Some(c) = current() {
+        c.coordinator_poll();
+    }
+}
+
+pub(crate) fn coordinator_idle() -> bool {
+    match current() {
+        Some(c) => c.coordinator_idle(),
+        None => false,
+    }
+}
+
+pub(crate) fn drain_begin() {
+    if let Some(c) = current() {
+        c.drain_begin();
+    }
+}
+
+pub(crate) fn drain_idle() -> bool {
+    match current() {
+        Some(c) => c.drain_idle(),
+        None => false,
+    }
+}
